@@ -357,7 +357,31 @@ def edit_ops(cfg):
     ops.append((f'b{bi}.new-shared', lambda c, g=get: _do(
         g(c), lambda n: _new_shared(n))))
   ops.append(('root.move-x-to-y', lambda c: _do(c, _move)))
+  # new shared values that reference each other, in every name order
+  for order in SHARED_ORDERS:
+    ops.append((f'root.new-shared-chain-{"-".join(c.__name__ for c in order)}',
+                lambda c, order=order: _do(c, lambda n: _shared_chain(
+                    n, order))))
   return ops
+
+
+SHARED_ORDERS = [
+    (N.Base, N.Other), (N.Other, N.Base), (N.Base, N.Mid, N.Other),
+    (N.Other, N.Mid, N.Base), (N.Mid, N.Other, N.Base),
+]
+
+
+def _shared_chain(n, order):
+  """order[0] references order[1] references ... ; each used twice so that
+  every one of them becomes a new shared value."""
+  inner = None
+  chain = []
+  for cls in reversed(order):
+    inner = fdl.Config(cls, x=inner if inner is not None else 'leaf')
+    chain.append(inner)
+  names = _named(n)
+  setattr(n, names[0], list(chain) + [chain[-1]])
+  setattr(n, names[1], {'again': list(chain)})
 
 
 def _new_shared(n):
